@@ -166,6 +166,12 @@ pub struct Snap {
 }
 
 pub struct InstOpts {
+    /// "MVCC by data": the harness draws write seqnos / snapshots from its OWN counters (starting at 1 000 000) and the
+    /// tree gets separate fresh counters for its version installs - the way the crate's own tests and examples use
+    /// the API (hand-picked seqnos). Every snapshot then resolves to the LATEST super version, so what a compaction or
+    /// flush with a watermark drops is no longer masked by version pinning: reads at a held snapshot S > T are
+    /// answered from the rewritten tables. Only in-session histories of writes, rotation, flush and compaction.
+    pub detached: bool,
     pub filter_seed: Option<u64>,
     pub shared: Option<(Arc<Cache>, Option<Arc<DescriptorTable>>)>,
     pub obs_seed: u64,
@@ -183,6 +189,9 @@ pub struct InstOpts {
 }
 
 pub struct Instance {
+    pub detached: bool,
+    /// the counters handed to the tree in detached mode
+    tree_counters: (SequenceNumberCounter, SequenceNumberCounter),
     /// per snapshot slot: what the snapshot answered for every key when it was opened (C02: "keeps seeing exactly
     /// that for as long as it uses S" - compared with every later answer, independently of the model)
     pub snap_views: Vec<Option<BTreeMap<Key, Option<Vec<u8>>>>>,
@@ -273,8 +282,10 @@ impl Instance {
             dir: dir.to_path_buf(),
             cfg,
             tree: None,
-            seqno: SequenceNumberCounter::default(),
-            visible: SequenceNumberCounter::default(),
+            detached: opts.detached,
+            tree_counters: (SequenceNumberCounter::default(), SequenceNumberCounter::default()),
+            seqno: if opts.detached { SequenceNumberCounter::new(1_000_000) } else { SequenceNumberCounter::default() },
+            visible: if opts.detached { SequenceNumberCounter::new(1_000_000) } else { SequenceNumberCounter::default() },
             model: Model::new(),
             uni,
             extra_keys: vec![],
@@ -371,7 +382,8 @@ impl Instance {
     }
 
     fn open_tree(&mut self, tags: &[&'static str]) -> Result<(), Violation> {
-        let mut c = self.cfg.build(&self.dir, self.seqno.clone(), self.visible.clone(), self.shared.clone());
+        let (cs, cv) = if self.detached { self.tree_counters.clone() } else { (self.seqno.clone(), self.visible.clone()) };
+        let mut c = self.cfg.build(&self.dir, cs, cv, self.shared.clone());
         if let Some(f) = &self.filter {
             c = c.with_compaction_filter_factory(Some(Arc::new(LogFactory(f.clone()))));
         }
@@ -460,6 +472,13 @@ impl Instance {
 
     /// Resolves a watermark selector into a legal GC watermark (strictly below every live snapshot).
     pub fn watermark(&self, sel: u16) -> u64 {
+        if self.detached && !self.live_snaps().is_empty() {
+            // Without version pinning a held snapshot S is only safe under "no garbage collection": the crate's
+            // stream drops every version below the watermark that has ANY newer version, also one written after S
+            // (by design - snapshot isolation comes from the pinned super version, DESIGN 4.11). What this mode
+            // checks is that nothing is collected that the watermark does not allow.
+            return 0;
+        }
         let m = self.live_snaps().into_iter().chain(std::iter::once(self.visible.get())).min().unwrap_or(0);
         if m == 0 {
             return 0;
@@ -571,6 +590,11 @@ impl Instance {
     }
 
     fn exec_inner(&mut self, _idx: usize, op: &Op) -> Result<(), Violation> {
+        if self.detached && matches!(op, Op::Ingest { .. } | Op::Clear | Op::DropRange { .. } | Op::Reopen | Op::Fifo { .. } | Op::FifoAppend { .. }) {
+            // these rely on version pinning / the shared counters (or end the session): not part of "MVCC by data"
+            bump(&mut self.counters, "skipped:detached", 1);
+            return Ok(());
+        }
         bump(&mut self.counters, &format!("op:{}", op.name()), 1);
         let nkeys = self.uni.keys.len().max(1);
         if !op.is_write() && self.tree.is_some() {
@@ -1542,6 +1566,10 @@ impl Instance {
 
     /// C02 mechanism invariant: a held snapshot keeps resolving to the version it was opened on.
     fn snapshot_version_invariant(&mut self) -> Result<(), Violation> {
+        if self.detached {
+            // every snapshot resolves to the latest version by construction
+            return Ok(());
+        }
         let lock = self.tree().get_version_history_lock();
         for s in self.snaps.iter().flatten() {
             let sv = lock.get_version_for_snapshot(s.seq);
